@@ -122,6 +122,13 @@ CheckSizeHint(e, A) ==
     ELSE LET left == IF Len(A.d) >= e.ia[1] THEN Len(A.d) - e.ia[1] ELSE 0 IN
          IF e.out[1] <= left /\ (e.out[2] < 0 \/ left <= e.out[2]) THEN "" ELSE "Value"
 
+CheckNormNeg(e, A) ==
+    IF A.k = "e" \/ Len(e.ia) # 1 \/ ~NormNegDefined(A) THEN "Malformed"
+    ELSE IF e.status # "ok" THEN "Panicked"
+    ELSE IF Len(e.out) # 1 THEN "Shape"
+    ELSE IF e.out[1] = NONFIN THEN "NotFinite"
+    ELSE IF NormNegOK(ty, A, e.ia[1], e.out[1]) THEN "" ELSE "Value"
+
 CheckArgmax(e, A) ==
     IF ~IsM(A) \/ ~NonEmpty(A) THEN "Malformed"
     ELSE IF e.status # "ok" THEN "Panicked"
@@ -156,6 +163,7 @@ CheckOp(e, A, B) ==
       [] e.op = "softmax_mut" -> CheckSoftmax(e, A)
       [] e.op \in NormHalfOps -> CheckNormHalf(e, A)
       [] e.op = "iter_size_hint" -> CheckSizeHint(e, A)
+      [] e.op \in NormNegOps -> CheckNormNeg(e, A)
       [] e.op = "argmax"  -> CheckArgmax(e, A)
       [] e.op \in {"unique", "v_unique"} -> CheckUnique(e, A)
       [] OTHER -> "UnknownOp"
@@ -168,7 +176,7 @@ Check(e, A, B) == Verdict(e, A, B, CheckOp(e, A, B))
 (* per operation (accepted result), one per rejected incompatible call,    *)
 (* and a few for the cases on which the statement is silent.               *)
 (***************************************************************************)
-AllOps == RegOps \cup QIntOps \cup EqOps \cup QRatOps \cup VarOps \cup NormHalfOps \cup {"iter_size_hint","softmax_mut", "argmax", "unique", "v_unique"}
+AllOps == RegOps \cup QIntOps \cup EqOps \cup QRatOps \cup VarOps \cup NormHalfOps \cup NormNegOps \cup {"iter_size_hint","softmax_mut", "argmax", "unique", "v_unique"}
 RejName(op) == "reject_" \o op
 HitNames == AllOps \cup { RejName(op) : op \in RejectOps }
             \cup {"eq_false_on_shape_mismatch", "eq_false_same_size_other_shape", "approx_false_same_size_other_shape",
@@ -177,7 +185,7 @@ HitNames == AllOps \cup { RejName(op) : op \in RejectOps }
                   "op_on_native_operand", "operands_intact_after_copying_call",
                   "op_in_scale_mode", "op_in_ulp_mode", "unique_in_scale_mode", "unique_in_ulp_mode",
                   "minmax_in_scale_mode", "minmax_in_ulp_mode", "dot_cross_orientation",
-                  "op_on_more_than_1024_elements", "reduction_on_more_than_1024_elements", "iter_adaptor_non_square", "unconstrained_softmax_matrix",
+                  "serde_non_square", "copy_into_longer_buffer", "op_on_more_than_1024_elements", "reduction_on_more_than_1024_elements", "iter_adaptor_non_square", "unconstrained_softmax_matrix",
                   "unique_sorted", "argmax_tie", "inplace_equals_copy"}
 
 TieAt(A, i, m) == Cardinality({j \in 1..A.c : At(A, i, j) = m}) > 1     \* m: the row maximum, evaluated once
@@ -213,6 +221,8 @@ HitSet(e, A, B, cl) ==
          \cup (IF A.k # "e" /\ Len(A.d) > 1024 /\ e.op \in {"sum", "v_sum", "mean", "v_mean", "column_mean", "dot", "v_dot", "norm1", "v_norm1"}
                THEN {"reduction_on_more_than_1024_elements"} ELSE {})
          \cup (IF e.op \in IterOps /\ IsM(A) /\ A.r # A.c THEN {"iter_adaptor_non_square"} ELSE {})
+         \cup (IF e.op \in {"serde_json", "serde_bincode"} /\ IsM(A) /\ A.r # A.c THEN {"serde_non_square"} ELSE {})
+         \cup (IF e.op \in CopyIntoOps /\ IsM(A) /\ e.ia[2] > (IF e.op = "copy_row_into" THEN A.c ELSE A.r) THEN {"copy_into_longer_buffer"} ELSE {})
          \cup (IF e.op = "eq" /\ e.status = "ok" /\ e.bool THEN {"eq_true"} ELSE {})
          \cup (IF e.op = "eq" /\ e.status = "ok" /\ ~e.bool /\ A.k # "e" /\ B.k # "e" /\ SameShape(A, B) THEN {"eq_false_same_shape"} ELSE {})
          \cup (IF e.op \in {"div", "div_mut", "v_div", "v_div_mut"} /\ e.status = "ok" /\ \E x \in 1..Len(B.d) : B.d[x] = 0
